@@ -48,6 +48,7 @@ Theorem C15_portal_outcome_recorded : forall s k w sv f s', step s (TaskStep k w
   | FReturn v => c_phase c' = PFinished /\ c_outcome c' = Some (ORet v)
   | FRaise e => c_phase c' = PFinished /\ c_outcome c' = Some (ORaise e)
   | FReraise => c_phase c' = PFinished /\ c_outcome c' = Some OCancelledOut /\ w = WInterrupt
+  | FCancelOwn => c_phase c' = PFinished /\ c_outcome c' = Some OCancelledOut
   end /\
   (forall v, sv = Some v -> c_started c' = Some v /\ c_status c' = CResult v /\ c_kind c' = KStart).
 Proof. exact portal_outcome_recorded. Qed.
@@ -104,6 +105,28 @@ Theorem C15_portal_future_cancel_after_stop_ignored_pinned :
   snd (step s (TaskStep 0 WInterrupt None FReraise)) = RRejected /\ snd (step s (CancelLand 0)) = RRejected.
 Proof. exact portal_future_cancel_after_stop_ignored_pinned. Qed.
 Print Assumptions C15_portal_future_cancel_after_stop_ignored_pinned.
+
+(* ---- 3b. a call whose OWN outcome is a cancellation not requested through the portal affects only itself ---- *)
+Theorem C15_portal_task_step_frame : forall s k w sv f,
+  let s' := fst (step s (TaskStep k w sv f)) in
+  (forall j, j <> k -> calls s' j = calls s j) /\ group_cancelled s' = group_cancelled s /\
+  running s' = running s /\ stop_event s' = stop_event s /\ members s' = members s /\ host s' = host s /\
+  woken s' = woken s.
+Proof. exact portal_task_step_frame. Qed.
+Print Assumptions C15_portal_task_step_frame.
+
+Theorem C15_portal_own_cancellation_is_local : forall f4 fc s k w sv s', reach f4 fc s ->
+  step s (TaskStep k w sv FCancelOwn) = (s', RStepped) ->
+  (forall j, j <> k -> calls s' j = calls s j) /\ group_cancelled s' = group_cancelled s /\
+  running s' = running s /\ members s' = members s /\ host s' = host s /\
+  c_phase (calls s' k) = PFinished /\ c_fut (calls s' k) = CCancelled /\
+  c_outcome (calls s' k) = Some OCancelledOut /\ c_base_fail (calls s' k) = false /\ c_invalid (calls s' k) = false /\
+  (let s'' := fst (step s' (TaskReap k)) in
+   snd (step s' (TaskReap k)) = RNone /\ group_cancelled s'' = group_cancelled s /\ running s'' = running s /\
+   (forall j, j <> k -> calls s'' j = calls s j) /\ c_phase (calls s'' k) = PReaped /\
+   c_fut (calls s'' k) = CCancelled).
+Proof. exact portal_own_cancellation_is_local. Qed.
+Print Assumptions C15_portal_own_cancellation_is_local.
 
 (* ---- 4. after stop new calls are refused with RuntimeError ---- *)
 Theorem C15_portal_stop_clears_running : forall s cr,
